@@ -365,3 +365,157 @@ Section Proofs.
       + injection H as <- _. assumption.
   Qed.
 End Proofs.
+
+(** ** the fuel that suffices: evaluation terminates
+    The call tree of [eval_expr_impl] is at most [max_depth + 1] levels of variable contents deep
+    (the depth counter of [deref_lvalue]) and inside one level at most as deep as the expression
+    is high.  [H] bounds the weight of every expression a variable can hold. *)
+Fixpoint weight (e : aexpr) : nat :=
+  let wo (i : option aexpr) := match i with Some ie => weight ie | None => O end in
+  match e with
+  | ELit _ => O
+  | ERef _ i => S (wo i)
+  | EUn _ a => S (weight a)
+  | EBin _ a b => S (Nat.max (weight a) (weight b))
+  | ECond c t f => S (Nat.max (weight c) (Nat.max (weight t) (weight f)))
+  | EAssign _ i a => S (Nat.max (wo i) (weight a))
+  | EIncr _ _ i => S (wo i)
+  | EBinAssign _ _ i a => S (S (Nat.max (wo i) (weight a)))
+  end.
+
+Section Fuel.
+  Variable parse : str -> option aexpr.
+  Variable nounset : bool.
+  Variable max_depth : Z.
+  Hypothesis max_depth_nonneg : 0 <= max_depth.
+  Variable H : nat.
+
+  Notation eval := (eval parse nounset max_depth).
+  Notation deref := (deref parse nounset max_depth).
+
+  Definition val_ok (s : str) : Prop :=
+    match parse s with Some p => (weight p <= H)%nat | None => True end.
+  Definition env_ok (en : env) : Prop := forall x s, lookup x en = Some s -> val_ok s.
+  Hypothesis empty_ok : val_ok [].
+  Hypothesis number_ok : forall z, val_ok (show_Z z).
+
+  Lemma env_ok_update x z en : env_ok en -> env_ok (update x (show_Z z) en).
+  Proof.
+    intros Hen y s. destruct (str_eqb x y) eqn:E.
+    - apply str_eqb_eq in E. subst y. rewrite lookup_update_same. intros Hs; injection Hs as <-. apply number_ok.
+    - rewrite lookup_update_other; [apply Hen|]. intros ->. rewrite str_eqb_refl in E. discriminate.
+  Qed.
+
+  Definition lvl (d : Z) : nat := Z.to_nat (max_depth - d).
+  Definition M (d : Z) (w : nat) : nat := (lvl d * S H + w)%nat.
+  Lemma lvl_step d : 0 <= d -> d + 1 <= max_depth -> lvl d = S (lvl (d + 1)).
+  Proof. unfold lvl. intros. lia. Qed.
+
+  Definition good (r : res) : Prop :=
+    match r with ROk _ en | RErr _ en => env_ok en | RFuel => False | RPanic => True end.
+  Definition ev_good (f : nat) (ev : evalfn) : Prop :=
+    forall e d en, 0 <= d <= max_depth -> (M d (weight e) < f)%nat -> env_ok en -> good (ev e d en).
+
+  Lemma bind_good r k : good r -> (forall v en, env_ok en -> good (k v en)) -> good (bind r k).
+  Proof. destruct r; cbn; auto. Qed.
+
+  Lemma assign_good f ev x i v d en : ev_good f ev -> 0 <= d <= max_depth ->
+    (M d (match i with Some ie => weight ie | None => O end) < f)%nat -> env_ok en ->
+    good (assign ev x i v d en).
+  Proof.
+    intros Hev Hd Hm Hen. destruct i; cbn.
+    - apply bind_good; [apply Hev; assumption|]. intros; assumption.
+    - apply env_ok_update. assumption.
+  Qed.
+
+  Lemma deref_good f ev x i d en : ev_good f ev -> 0 <= d <= max_depth ->
+    (M d (S (match i with Some ie => weight ie | None => O end)) <= f)%nat -> env_ok en ->
+    good (deref ev x i d en).
+  Proof.
+    intros Hev Hd Hm Hen. destruct i; cbn.
+    - apply bind_good; [apply Hev; [assumption|unfold M in *; lia|assumption]|]. intros; assumption.
+    - assert (Hv : match (match lookup x en with Some s => Some s | None => if nounset then None else Some [] end) with
+                   | Some s => val_ok s | None => True end).
+      { destruct (lookup x en) eqn:E; [eapply Hen; eassumption|]. destruct nounset; [exact I|exact empty_ok]. }
+      destruct (match lookup x en with Some s => Some s | None => if nounset then None else Some [] end) as [s|];
+        [|exact Hen].
+      unfold val_ok in Hv. destruct (parse s) as [p|]; [|exact Hen].
+      destruct (is_literal p) eqn:El.
+      + destruct p; try discriminate. apply Hev; [assumption| |assumption]. cbn [weight]. unfold M in *. lia.
+      + destruct (Z.gtb_spec (d + 1) U32_MAX) as [Hbig|Hsmall]; [exact I|].
+        destruct (Z.gtb_spec (d + 1) max_depth) as [Hgt|Hle]; [exact Hen|].
+        apply Hev; [lia| |assumption].
+        unfold M in *. rewrite (lvl_step d) in Hm by lia. lia.
+  Qed.
+
+  Lemma apply_binary_good f ev o l r d en : ev_good f ev -> 0 <= d <= max_depth ->
+    (M d (Nat.max (weight l) (weight r)) < f)%nat -> env_ok en ->
+    good (apply_binary ev o l r d en).
+  Proof.
+    intros Hev Hd Hm Hen.
+    assert (Hl : forall en0, env_ok en0 -> good (ev l d en0)) by (intros; apply Hev; [assumption|unfold M in *; lia|assumption]).
+    assert (Hr : forall en0, env_ok en0 -> good (ev r d en0)) by (intros; apply Hev; [assumption|unfold M in *; lia|assumption]).
+    assert (Hgen : forall o', good (bind (ev l d en) (fun lv en1 => bind (ev r d en1) (fun rv en2 =>
+        match arith o' lv rv with AOk v => ROk v en2 | AErr e => RErr e en2 | APanic => RPanic | AFuel => RFuel end)))).
+    { intros o'. apply bind_good; [apply Hl; assumption|]. intros lv en1 Hen1.
+      apply bind_good; [apply Hr; assumption|]. intros rv en2 Hen2.
+      pose proof (arith_no_fuel o' lv rv). destruct (arith o' lv rv); cbn; try assumption; try exact I. congruence. }
+    destruct o; try apply Hgen; cbn.
+    - apply bind_good; [apply Hl; assumption|]. intros lv en1 Hen1.
+      destruct (negb (lv =? 0)); [exact Hen1|]. apply bind_good; [apply Hr; assumption|]. intros; assumption.
+    - apply bind_good; [apply Hl; assumption|]. intros lv en1 Hen1.
+      destruct (lv =? 0); [exact Hen1|]. apply bind_good; [apply Hr; assumption|]. intros; assumption.
+  Qed.
+
+  Lemma eval_good : forall f, ev_good f (eval f).
+  Proof.
+    induction f as [|f IH]; intros e d en Hd Hm Hen; [lia|].
+    assert (Hev : ev_good f (eval f)) by exact IH.
+    assert (Hsub : forall e' en0, (weight e' < weight e)%nat -> env_ok en0 -> good (eval f e' d en0)).
+    { intros e' en0 Hw Hen0. apply IH; [assumption|unfold M in *; lia|assumption]. }
+    destruct e; cbn [Eval.eval]; cbn [weight] in *.
+    - exact Hen.
+    - apply (deref_good f); [assumption|assumption|unfold M in *; lia|assumption].
+    - apply bind_good; [apply Hsub; [lia|assumption]|]. intros; assumption.
+    - apply (apply_binary_good f); [assumption|assumption|unfold M in *; lia|assumption].
+    - apply bind_good; [apply Hsub; [lia|assumption]|]. intros cv en1 Hen1.
+      destruct (negb (cv =? 0)); apply Hsub; try assumption; lia.
+    - apply bind_good; [apply Hsub; [lia|assumption]|]. intros v en1 Hen1.
+      apply (assign_good f); [assumption|assumption|unfold M in *; destruct i; lia|assumption].
+    - unfold apply_incr. apply bind_good.
+      + apply (deref_good f); [assumption|assumption|unfold M in *; lia|assumption].
+      + intros v en1 Hen1.
+        destruct o; (apply bind_good; [apply (assign_good f); [assumption|assumption|unfold M in *; destruct i; lia|assumption]|intros; assumption]).
+    - apply bind_good.
+      + apply (apply_binary_good f); [assumption|assumption| |assumption].
+        cbn [weight]. unfold M in *. destruct i; lia.
+      + intros v en1 Hen1. apply (assign_good f); [assumption|assumption|unfold M in *; destruct i; lia|assumption].
+  Qed.
+
+  (** With fuel above [(max_depth + 1) * (H + 1) + weight e] the evaluation of [e] from depth 0 ends:
+      the recursion through variable contents is cut by the depth counter after [max_depth] levels. *)
+  Theorem deref_depth_bound fuel e en : env_ok en ->
+    ((Z.to_nat max_depth) * S H + weight e < fuel)%nat ->
+    eval fuel e 0 en <> RFuel.
+  Proof.
+    intros Hen Hf Heq.
+    pose proof (eval_good fuel e 0 en ltac:(lia)) as Hg.
+    unfold M, lvl in Hg. rewrite Z.sub_0_r in Hg. specialize (Hg Hf Hen). rewrite Heq in Hg. exact Hg.
+  Qed.
+End Fuel.
+
+(** the hypotheses of [deref_depth_bound] are satisfiable, and the bound is tight in its shape:
+    a self-referential variable runs [max_depth] levels deep and then reports the error *)
+Example fuel_hyps_nonvacuous :
+  let parse := fun s : str => match s with [] => Some (ELit 0) | _ => Some (ERef [120%N] None) end in
+  val_ok parse 1 [] /\ (forall z, val_ok parse 1 (show_Z z)) /\
+  env_ok parse 1 [([120%N], [120%N])] /\
+  eval parse false 1024 (1024 * 2 + 1 + 1) (ERef [120%N] None) 0 [([120%N], [120%N])]
+    = RErr ERecLimit [([120%N], [120%N])].
+Proof.
+  cbn zeta. split; [cbn; lia|]. split.
+  - intros z. unfold val_ok. destruct (show_Z z); cbn; lia.
+  - split.
+    + intros x s. cbn. destruct (str_eqb x [120%N]); [|congruence]. intros Hs; injection Hs as <-. cbn. lia.
+    + vm_compute. reflexivity.
+Qed.
